@@ -20,14 +20,14 @@ IsEv(e) == l <= Len(Trace) /\ Ev.e = e
 Publish(d, da, v) == TLCSet(1, TLCGet(1) \cup {[t |-> tno, drift |-> d, driftAt |-> da, viol |-> v]})
 
 TInit ==
-  /\ InitWith([doms |-> <<"top">>, sub |-> FALSE])
+  /\ InitWith([doms |-> <<"top">>, sub |-> FALSE, tpl |-> "key"])
   /\ l = 1 /\ drift = FALSE /\ driftAt = 0 /\ tno = 0 /\ viol = {}
   /\ TLCSet(1, {})
 
 TReset ==
   /\ IsEv("Cfg")
-  /\ cfg' = [doms |-> Ev.doms, sub |-> Ev.sub]
-  /\ kf' = [d \in Doms |-> NoKey] /\ dns' = [d \in Doms |-> NoRec] /\ mem' = [d \in Doms |-> NoKey]
+  /\ cfg' = [doms |-> Ev.doms, sub |-> Ev.sub, tpl |-> Ev.tpl]
+  /\ kf' = [d \in Doms |-> NoKey] /\ dns' = [f \in RecFiles |-> NoRec] /\ mem' = [d \in Doms |-> NoKey]
   /\ run' = FALSE /\ n' = 0 /\ last' = NoSig /\ hist' = <<>>
   /\ l' = l + 1 /\ drift' = FALSE /\ driftAt' = 0 /\ tno' = Ev.t /\ viol' = {}
 
